@@ -25,6 +25,13 @@ func sweepContract(ct *Contract) *Contract {
 	n := &Contract{Kind: ct.Kind, Key: ct.Key, PkgName: ct.PkgName, File: ct.File, Line: ct.Line, Props: ct.Props,
 		Mode: "", Safety: "off", Loops: map[int]*LoopSpec{}, Flags: map[string]string{}, Params: ct.Params}
 	for k, v := range ct.Flags {
+		if k == "pure" && ct.Kind == "interface" {
+			// purity of an interface method is an assumption on its implementations (a user's comparer, a filter)
+			// that every other check makes too; without it a call of Compare between taking a lock and using the
+			// locked object would be taken to move the object
+			n.Flags[k] = v
+			continue
+		}
 		if k == "pure" || k == "trusted" || k == "frame" {
 			continue
 		}
